@@ -12,7 +12,7 @@ import shutil
 from mc.core import explore
 from mc.core.evidence import Check, Shard
 from mc.core.pool import Pool
-from mc.lib7z import Collect
+from mc.lib7z import seams, Collect
 from mc.ref import ref7z
 
 MODULE = "mc.checks.c15"
@@ -149,6 +149,13 @@ def do_good(z, kind, i, root, model):
 
 
 def body(ch: explore.Chooser, wd: str):
+    # a 256-byte I/O block: the 768-byte file and the 360-byte stream are read in several pieces, so that a read fault
+    # can fall after some of the member has already been compressed ("midway")
+    with seams(block=256):
+        return _body(ch, wd)
+
+
+def _body(ch: explore.Chooser, wd: str):
     """One history.  Choice points: #calls before the fault, their kinds, the faulty call, answer index, errno, #calls after, closing."""
     import py7zr
 
